@@ -145,7 +145,7 @@ Fixpoint app_run_ev (prm : rt_params) (slashes : bool) (max_age : N) (st : rt_st
   match bs with
   | [] => []
   | b :: r =>
-      let st_begin := fst (begin_block st (ab_epoch (eb_block b))) in
+      let st_begin := fst (begin_block prm st (ab_epoch (eb_block b))) in
       let '(store1, codes) := run_evs st_begin store slashes max_age (eb_evs b) in
       let '(st1, o) := app_block prm st (eb_block b) in
       (o, codes) :: app_run_ev prm slashes max_age st1 store1 r
@@ -154,7 +154,7 @@ Fixpoint app_run_ev (prm : rt_params) (slashes : bool) (max_age : N) (st : rt_st
 Definition run_ecase (x : rt_params * (bool * N) * (N * N) * list eblock) : list (block_obs * list N) :=
   match x with
   | (prm, (slashes, max_age), (round, root), bs) =>
-      app_run_ev prm slashes max_age (new_runtime round root) [] bs
+      app_run_ev prm slashes max_age (new_runtime prm round root) [] bs
   end.
 Definition ecase_eqb (a b : list (block_obs * list N)) : bool :=
   list_eqb (fun x y => bo_eqb (fst x) (fst y) && list_eqb N.eqb (snd x) (snd y)) a b.
